@@ -59,9 +59,9 @@ def trimSpace (l : Bytes) : Bytes := dropEndWhile isSpTab (l.dropWhile isSpTab)
 
 /-- `nextWord`: up to the first space/tab; the rest is `trimSpace`d (nil when there is no blank) -/
 def nextWord (l : Bytes) : Bytes × Bytes :=
-  match l.span (fun b => !isSpTab b) with
-  | (w, []) => (w, [])
-  | (w, rest) => (w, trimSpace rest)
+  match l.dropWhile (fun b => !isSpTab b) with
+  | [] => (l.takeWhile (fun b => !isSpTab b), [])
+  | rest => (l.takeWhile (fun b => !isSpTab b), trimSpace rest)
 
 /-- `bufio.ScanLines`: split at LF, drop one trailing CR of every line -/
 def dropCR (l : Bytes) : Bytes :=
@@ -279,8 +279,10 @@ def hashHostname (salt hostname : Bytes) : Bytes :=
     (`key.Type()`, id of `key.Marshal()`); blobs absent from the table do not parse -/
 abbrev KeyTab := List (Bytes × (Bytes × Nat))
 
-def markerCert : Bytes := s2b "@cert-authority"
-def markerRevoked : Bytes := s2b "@revoked"
+/-- "@cert-authority" -/
+def markerCert : Bytes := [64, 99, 101, 114, 116, 45, 97, 117, 116, 104, 111, 114, 105, 116, 121]
+/-- "@revoked" -/
+def markerRevoked : Bytes := [64, 114, 101, 118, 111, 107, 101, 100]
 
 inductive Marker where
   | none | cert | revoked
@@ -434,6 +436,51 @@ def DB.checkHostKey (db : DB) (now : Int) (address remote : Bytes) (k : QKey) : 
     else match splitHostPort address with
       | none => .reject
       | some (h, _) => if db.checkCert now h c then .ok else .reject
+
+/-! ## the property's reading (OpenSSH semantics) on the two points where the code differs
+
+Used only by the `khp` op class (see known_findings.txt); everything else in this file is the code as written.
+  * marker: OpenSSH looks a plain host key up among lines WITHOUT a marker only (`@cert-authority` lines
+    serve certificates only);
+  * case: OpenSSH lowercases the host name and the patterns before matching. -/
+
+def lowerByte (c : UInt8) : UInt8 := if 65 ≤ c.toNat ∧ c.toNat ≤ 90 then c + 32 else c
+def lower (w : Bytes) : Bytes := w.map lowerByte
+
+def HostPattern.matchesCI (p : HostPattern) (a : Addr) : Bool :=
+  wildcardMatch (lower p.addr.host) (lower a.host) && p.addr.port == a.port
+
+def matchPatternsCI (matched : Bool) : List HostPattern → Addr → Bool
+  | [], _ => matched
+  | p :: ps, a =>
+    if !p.matchesCI a then matchPatternsCI matched ps a
+    else if p.negate then false
+    else matchPatternsCI true ps a
+
+def Matcher.matchesP (m : Matcher) (a : Addr) : Bool :=
+  match m with
+  | .pats ps => matchPatternsCI false ps a
+  | .hashed salt hash => hashHost (normalize (Addr.str ⟨lower a.host, a.port⟩)) salt == hash
+
+def checkAddrP (key : Nat) (a : Addr) : List Entry → List Nat → Verdict
+  | [], want => .keyErr want
+  | l :: rest, want =>
+    if l.cert || !l.matcher.matchesP a then checkAddrP key a rest want
+    else if l.key == key then .ok
+    else checkAddrP key a rest (want ++ [l.lineNo])
+
+/-- plain-key decision under the property's reading -/
+def DB.checkP (db : DB) (address remote : Bytes) (key : Nat) : Verdict :=
+  match db.revokedLine key with
+  | some n => .revoked n
+  | none =>
+    match splitHostPort remote with
+    | none => .reject
+    | some (rh, rp) =>
+      if address.isEmpty then checkAddrP key ⟨rh, rp⟩ db.lines []
+      else match splitHostPort address with
+        | none => .reject
+        | some (h, p) => checkAddrP key ⟨h, p⟩ db.lines []
 
 /-! ## writing entries -/
 
